@@ -21,8 +21,8 @@ class VerusResult:
 def run_verus(path, rlimit=None, threads=None, timeout=1800):
     cmd = [VERUS, path, "--output-json", "--time-expanded", "--error-format=json", "--multiple-errors", "40",
            "--triggers-mode", "silent"]
-    if rlimit:
-        cmd += ["--rlimit", str(rlimit)]
+    # a fixed, generous resource limit (Verus default is 10): the preludes grow, proofs near the default limit would flip to "undecided"
+    cmd += ["--rlimit", str(rlimit or int(os.environ.get("VERIF_RLIMIT", "40")))]
     if threads:
         cmd += ["--num-threads", str(threads)]
     res = VerusResult()
@@ -116,6 +116,9 @@ VERIF_MSGS = (
     ("cannot show invariant", "invariant"),
     ("loop invariant", "invariant"),
     ("index out of bounds", "index"),
+    ("post-condition of closure", "closure-postcondition"),
+    ("pre-condition of closure", "closure-precondition"),
+    ("unable to prove", "other-verification"),
     ("failed this", "other-verification"),
 )
 
